@@ -66,9 +66,53 @@ def pipeline_operands(sc):
     return out
 
 
+class _G:
+    pass
+
+
+def mixed_dtype_circuit(rng):
+    """same-shaped weights of different data types (integer constant, float array constant, learnable float tensor) in sum layers
+    of one frontier: folding must not cast one into the type of another"""
+    from cirkit.symbolic import layers as L
+    from cirkit.symbolic.circuit import Circuit
+    n = rng.choice([2, 3, 3])
+    K = rng.choice([1, 2])
+    vs = gen.VAR_SETS[rng.choice(["dense", "sparse"])](n)
+    g = _G()
+    g.doms = {v: ("disc", 2) for v in vs}
+    layers, ins, sums = [], {}, []
+    kinds = ["int", "array", rng.choice(["array", "tensor", "int"])][:n]
+    rng.shuffle(kinds)
+    if rng.random() < 0.6 and "int" in kinds:      # the narrower type first in the frontier
+        kinds.remove("int")
+        kinds.insert(0, "int")
+    for v, kd in zip(vs, kinds):
+        il = L.EmbeddingLayer(Scope([v]), K, num_states=2, weight=P.Parameter.from_input(gen.tensor(gen.dy_array(rng, (K, 2), 1, 8))))
+        if kd == "int":
+            w = P.Parameter.from_input(P.ConstantParameter(K, K, value=rng.choice([1, 2, 3])))
+        elif kd == "array":
+            w = P.Parameter.from_input(P.ConstantParameter(K, K, value=gen.dy_array(rng, (K, K), 1, 11, 4)))
+        else:
+            w = P.Parameter.from_input(gen.tensor(gen.dy_array(rng, (K, K), 1, 11, 4)))
+        sl = L.SumLayer(K, K, arity=1, weight=w)
+        layers += [il, sl]
+        ins[sl] = [il]
+        sums.append(sl)
+    h = L.HadamardLayer(K, arity=n)
+    ins[h] = sums
+    out = L.SumLayer(K, 1, arity=1, weight=P.Parameter.from_input(gen.tensor(gen.dy_array(rng, (1, K), 1, 8))))
+    ins[out] = [h]
+    layers += [h, out]
+    g.desc = {"family": "mixed-dtype-weights", "kinds": ["emb"] * n, "wkinds": kinds, "sums": n + 1, "prods": 1, "arity": [1] * (n + 1), "K": K, "nout": 1, "vars": list(vs)}
+    return Circuit(layers, ins, [out]), g
+
+
 def build(rng):
-    mode = rng.choice(["base", "base", "integrate", "multiply", "intmul", "intmul", "differentiate", "evidence", "conjugate", "concatenate"])
+    mode = rng.choice(["base", "base", "integrate", "multiply", "intmul", "intmul", "differentiate", "evidence", "conjugate", "concatenate", "mixed-dtype"])
     monotone = rng.random() < 0.6
+    if mode == "mixed-dtype":
+        sc, g = mixed_dtype_circuit(rng)
+        return mode, sc, g, True
     if mode == "differentiate":
         o = gen.random_opts(rng, kinds=["poly"], monotone=False)
         sc, g = gen.gen_circuit(rng, **o)
@@ -96,7 +140,7 @@ def build(rng):
         except Exception:
             return "base", s1, g, monotone
     kinds = INTEGRABLE if mode == "integrate" else KINDS
-    o = gen.random_opts(rng, kinds=kinds, monotone=monotone, heads=rng.random() < 0.3)
+    o = gen.random_opts(rng, kinds=kinds, monotone=monotone, heads=rng.random() < 0.3, int_consts=True)
     sc, g = gen.gen_circuit(rng, **o)
     scope = sorted(sc.scope._set)
     if mode == "integrate":
